@@ -137,6 +137,22 @@ def run(ctx):
     # NumPy sweep over assignment forms
     cases = families.setitem_cases(rnd, 500 if ctx.tier == "quick" else 5000)
     family.evaluate(ctx, cases, want=("oracle",))
+    # writes that mix data-holding targets with placeholder values / indices: the written array and everything
+    # derived from it afterwards must see the write (exported model run == eager evaluation)
+    mixed = []
+    for i in range(60 if ctx.tier == "quick" else 600):
+        d = rnd.choice(["int64", "float64", "int32", "nint64"])
+        sh = ops.rand_shape(rnd, 2, 0.0, (1, 2, 3), min_rank=1)
+        a, p_ = ops.tensor(rnd, d, sh, "small"), ops.tensor(rnd, d, sh, "small")
+        m = {"dtype": "bool", "shape": sh, "data": [rnd.random() < 0.5 for _ in range(ops.prod(sh))]}
+        form = rnd.choice(["x = a.copy(); x[0] = p[0]; out = [x, x + 1]", "x = a.copy(); x[...] = p; out = [x, ndx.sum(x)]",
+                           "x = a.copy(); x[m] = 0; out = [x, x * 2]", "x = a.copy(); y = x[...]; x[-1] = p[-1]; out = [x, y + 0]",
+                           "x = a.copy(); x[0] = p[0]; x[-1] = 7; out = [x + 0, x]"])
+        lazy = ["m"] if "[m]" in form else ["p"]
+        mixed.append({"id": f"WL-{i}", "inputs": {"a": a, "p": p_, "m": m}, "impl": form, "oracle": None, "tol": [0, 0],
+                      "meta": {"func": "setitem-mixed", "dtype": d, "dclass": family.dclass(d)},
+                      "lazy_subsets": [{"names": lazy}, {"names": lazy + ["a"]}]})
+    family.evaluate(ctx, mixed, want=("traced",))
     # alias table
     ac = alias_cases(rnd)
     res = core.run_cases("harness.h_ops", ac, workers=14, per_case_timeout=120)
